@@ -19,6 +19,7 @@ package config
 import (
 	"fmt"
 	"net/url"
+	"slices"
 	"strings"
 
 	"github.com/dadrus/heimdall/internal/x"
@@ -55,7 +56,10 @@ func (r QueryParamsRemover) RemoveFrom(value string) string {
 
 	query, err := url.ParseQuery(value)
 	if err != nil {
-		return value
+		// the query cannot be parsed as a whole (e.g. a broken escape or a semicolon in one
+		// of its settings). The parameters are then removed setting by setting and everything
+		// else is kept as it is, instead of forwarding the parameters, which had to be removed.
+		return r.removeFromRaw(value)
 	}
 
 	for _, param := range r {
@@ -63,6 +67,22 @@ func (r QueryParamsRemover) RemoveFrom(value string) string {
 	}
 
 	return query.Encode()
+}
+
+func (r QueryParamsRemover) removeFromRaw(value string) string {
+	settings := strings.Split(value, "&")
+	kept := make([]string, 0, len(settings))
+
+	for _, setting := range settings {
+		key, _, _ := strings.Cut(setting, "=")
+		if name, err := url.QueryUnescape(key); err == nil && slices.Contains(r, name) {
+			continue
+		}
+
+		kept = append(kept, setting)
+	}
+
+	return strings.Join(kept, "&")
 }
 
 type URLRewriter struct {
